@@ -45,6 +45,11 @@ CHECKS = {
             "For 8 (quick) / 12 (thorough) pipeline shapes every job of the fault-free run is made to fail in each of 12 metadata-level manifestations (error/assert files, process vanishing, non-zero exit, truncated/missing/ill-typed/extra-key _outs, bad _stage_defs) at enforcement levels disable and error, under the default schedule and with the failing job slowest; oracle: failed (never success or hang) where the manifestation is decided to be fatal, the reported fqname lies in the failing stage, no dependent call started (reference dependency closure), independent jobs untouched, and a restart without the fault completes with the reference outputs without re-running completed jobs.",
             "process-level manifestations through the real mrjob/adapters and auto-retry are not exercised (model job writes what mrjob would); chunk-level type faults and extra keys are fatal only at --strict=error",
             "DESIGN.md 4/C06"),
+    "C17": ("exploration",
+            "bounded-exhaustive (type, JSON value) enumeration with single-point near-miss mutations against a three-valued reference validator and reference filter",
+            "120 types (14 base types incl. six structs x array depth 0-2 x typed-map nesting 0-2); for each a generated set of valid values and every single-point near-miss mutation (wrong kind at each node, 1.0/1.5, extra nesting, extra/missing field), in compact and oddly spaced raw JSON (about 6*10^4 distinct pairs in quick); checks: IsValidJson agrees with the reference wherever it is decided and accepts null; FilterJson is idempotent, equals the reference filter (drops undeclared fields, integral floats to ints) and its result validates; for every ordered type pair (S,D) with D assignable from S every valid S value filtered to D validates for D; assignability is reflexive and component-wise for arrays, typed maps and structs over all 120^2 pairs.",
+            "values deeper than the generator bound and mutations beyond one point are not covered; integral floats for int, integers beyond int64 and undeclared fields are unspecified for validation",
+            "DESIGN.md 4/C17"),
     "C18": ("exploration",
             "bounded-exhaustive string enumeration, real shell as oracle",
             "Every string of length <=3 over a 27-symbol shell-adversarial alphabet (longer over the 9 shell-active symbols, plus every single byte) is quoted by the real shellSafeQuote and evaluated by dash and bash, which must print the original bytes; whole job scripts rendered by the real RemoteJobManager.jobScript for every shipped template are executed with an argv/environment dumping program for each role (program path, argument, environment value, stdout path, work dir). Exhaustive within the stated alphabet and length bounds.",
